@@ -430,6 +430,24 @@ Proof.
   unfold mkp at 1. destruct (f_const x); apply IH.
 Qed.
 
+(* ... and such a parameter list has no keys of its own to forget *)
+Lemma own_keys_nil ps :
+  (forall p, In p ps -> match pkind_of p with KLenKey _ => False | _ => True end) -> own_keys ps = [].
+Proof.
+  induction ps as [|p ps IH]; intros H; [reflexivity|]. unfold own_keys. cbn [flat_map].
+  pose proof (H p (or_introl eq_refl)) as Hp.
+  destruct (pkind_of p); try contradiction; cbn [app]; apply IH; intros q Hq; apply H; now right.
+Qed.
+(* after unfolding enc_composite: the object has no keys of its own, [tac] proves that *)
+Ltac no_own_keys tac :=
+  match goal with |- context [drop_keys (own_keys ?ps) _] =>
+    replace (own_keys ps) with (@nil name) by (symmetry; apply own_keys_nil; tac)
+  end; cbn [drop_keys].
+Lemma own_keys_flat fl : own_keys (map mkp fl) = [].
+Proof.
+  apply own_keys_nil. intros p Hp. apply in_map_iff in Hp as (x & <- & _). unfold mkp. destruct (f_const x); exact I.
+Qed.
+
 (* ---------- the theorem ---------- *)
 Theorem flat_roundtrip fl vv :
   (forall x, In x fl -> fits x (vv (fname x))) -> NoDup (map fname fl) ->
@@ -450,7 +468,9 @@ Proof.
   destruct (flat_loop kv vv k k (zlen ps) (e_eop (estate0 None)) fl s0 0 Hend0 Hg)
     as (s' & w & He & Hend' & Hwarn & Hm & Hw & Ho & Hdec).
   exists (e_msg s'). split; [|split].
-  - unfold encode_msg. rewrite Hk. cbn [enc_composite]. cbn [estate0 e_bit Z.eqb guard bind].
+  - unfold encode_msg. rewrite Hk. cbn [enc_composite].
+    replace (own_keys ps) with (@nil name) by (symmetry; apply own_keys_flat). cbn [drop_keys].
+    cbn [estate0 e_bit Z.eqb guard bind].
     assert (Hi : incl (filter is_value fl) fl) by (intros y Hy; apply filter_In in Hy; tauto).
     pose proof (known_params vv (filter is_value fl) fl Hi) as Hkp. fold ps in Hkp. fold kv in Hkp. rewrite Hkp.
     cbn [guard bind].
@@ -798,7 +818,9 @@ Proof.
       apply G; [exact HF | apply incl_refl]. }
     destruct (enc_loop_reproduces kv vv k (zlen ps) (e_eop (estate0 None)) fl ws s0 0 Hend0 HF2)
       as (s' & He & Hend' & Hwarn & Hm).
-    unfold encode_msg. rewrite Hk. cbn [enc_composite]. cbn [estate0 e_bit Z.eqb guard bind].
+    unfold encode_msg. rewrite Hk. cbn [enc_composite].
+    replace (own_keys ps) with (@nil name) by (symmetry; apply own_keys_flat). cbn [drop_keys].
+    cbn [estate0 e_bit Z.eqb guard bind].
     assert (Hi : incl (filter is_value fl) fl) by (intros y Hy; apply filter_In in Hy; tauto).
     pose proof (known_params vv (filter is_value fl) fl Hi) as Hkp. fold ps in Hkp. fold kv in Hkp. rewrite Hkp.
     cbn [guard bind].
